@@ -1374,6 +1374,27 @@ def r518(rep: Report, ctx: Ctx) -> None:
     rep.rule("R5.18", "diagram nodes: creation, registration, the activity "
              "line, loop body framing, dummy start / end removal", 15)
     check_table(rep, ctx, "R5.18", PUML_TABLE, list(PUML_TABLE))
+    # branch separators: in front of each branch of an operator that has
+    # separators comes the separator for that position
+    fs = ctx.func("PUMLGraph._order_nodes_from_dfs_successors_dict")
+    from .effspec import effects as _effects0
+    sp = [e for e in _effects0(ctx, fs) if e.kind == "call" and e.name ==
+          "append" and e.recv == "[P:node]" and len(e.args) == 1 and
+          e.args[0].startswith(
+              "OPERATOR_PATH_FUNCTION_MAP[P:node.operator_type](")]
+    need = [("cmp", "P:node", "In", "P:dfs_successor_dict", "1"),
+            ("truth", "isinstance(P:node,PUMLOperatorNode)", "1"),
+            ("cmp", "P:node.operator_type", "In",
+             "OPERATOR_PATH_FUNCTION_MAP", "1")]
+    oks = len(sp) == 1 and all(g in sp[0].guards for g in need) and (
+        "cmp", sp[0].args[0], "Is", "None", "0") in sp[0].guards and len(
+        sp[0].guards) == 4
+    rep.ob("R5.18", "_order_nodes_from_dfs_successors_dict: the separator of "
+           "an operator's table is put in front of each branch (none where "
+           "the table says none), for operators that have separators only",
+           oks, fi=fs, node=sp[0].node if sp else fs.node,
+           detail="; ".join(e.show()[:300] for e in sp) or "no separator is "
+           "appended")
     # an operator node writes EVERY keyword line of its table entry (the
     # indentation in front of it is layout, not content)
     from .effspec import effects as _effects
